@@ -1,9 +1,13 @@
+mod alloc;
 mod app;
 mod drive;
 mod dsl;
 mod legacy;
 
 use std::io::{BufRead, BufWriter, Write};
+
+#[global_allocator]
+static GLOBAL: alloc::Counting = alloc::Counting;
 
 fn main() {
     std::panic::set_hook(Box::new(|_| {})); // panics in code under test are data
